@@ -220,6 +220,7 @@ def run(fx, R, tier, sv_ratio=1e-12, sv_why='with cond(J) < 1e6 (quantifier) the
                                    'this reads rows of the earlier one' % (mem['name'], f['name'], pp(chain[-1]) if chain else mem['name']), fx.rel(mem['loc']), 'E-STATE')
         DECIDED.clear()
         check_instance(fx, R, cq, cname)
+        check_shortcuts(fx, R, cq, cname)
         check_set_data_size(fx, R, cq, cname)
         check_normal(fx, R, cq, cname)
         check_paths(fx, R, cq, cname)
@@ -582,6 +583,33 @@ def check_weight_precond(fx, R, cq, cname):
             R.undecided('L6', '%s::%s:reads-weights' % (cname, en), 'W_ is read on the unweighted path but no store or return uses it directly')
         else:
             R.holds('L6', '%s::%s:reads-weights' % (cname, en), 'no function reached reads W_ (reads: %s)' % sorted(rd), fx.rel(f['loc']), 'E-STATE')
+
+
+def check_shortcuts(fx, R, cq, cname):
+    """L8: a return in front of the decomposition.  Under a TOLERANCE test on the normal equations (|J^T Y| < c, isZero ...) the solver answers
+    without solving; the statement is scale-free (every full-rank J with condition number below 1e6, and the estimators built on it rescale
+    their problems by 1e-3 .. 1e3), so a perfectly conditioned problem of small magnitude takes the shortcut and gets the null correction."""
+    from .. import earlyexit
+    for name in ('estimateUsingSVD', 'estimateUsingCholeskyDecomposition'):
+        f = fx.one(cq + '::' + name)
+        if f is None or f.get('body') is None or f['body'].get('k') != 'Compound':
+            continue
+        top = f['body']['s']
+        dec = next((i_ for i_, x_ in enumerate(top) if (x_.get('k') == 'Decl' and any('JacobiSVD' in (v_['t'].get('s') or '') for v_ in x_['vars'])) or
+                    any(isinstance(y_, dict) and y_.get('k') == 'MCall' and y_.get('m') in ('ldlt', 'llt', 'fullPivLu', 'partialPivLu', 'colPivHouseholderQr') for y_ in walk(x_))), None)
+        inst = '%s::%s:shortcut' % (cname, name)
+        if dec is None:
+            continue
+        exits = earlyexit.exits_before(top, dec)
+        if not exits:
+            R.holds('L8', inst, 'no return in front of the decomposition', fx.rel(f['loc']), 'E-STATE')
+        for (node, ctext, tol) in exits:
+            if tol:
+                R.violated('L8', '%s::%s:tolerance-shortcut' % (cname.split('<')[0], name), '%s() returns without solving when `%s` (%s): the threshold is an absolute number in the units of J^T Y, which scale with the data '
+                           '(and with the square of any preconditioning scale, 1e-3 .. 1e3 for the estimators built on this solver); a full-rank, well-conditioned problem of small magnitude satisfies it and gets '
+                           'the null correction instead of the minimiser' % (name, ctext, tol), fx.rel(node['loc']), 'E-STATE')
+            else:
+                R.undecided('L8', inst, 'returns in front of the decomposition when `%s`; the instance rule L7 judges the paths it reaches, the others are not decided' % ctext)
 
 
 def check_instance(fx, R, cq, cname):
